@@ -12,6 +12,10 @@ PD = "src/place_detailed/"
 PG = "src/place_global/"
 M = {
  "C01": [
+  ("abacus-downward-sweep-misses-row-0", PD + "abacus_legalizer.cpp", "  for (int row = initialRow - 1; row >= 0; --row) {", "  for (int row = initialRow - 1; row > 0; --row) {", V, ["RS"]),
+  ("benign-downward-sweep-gt-minus-one", PD + "abacus_legalizer.cpp", "  for (int row = initialRow - 1; row >= 0; --row) {", "  for (int row = initialRow - 1; row > -1; --row) {", H, []),
+  ("interval-intersection-de-morgan-slip", PD + "tetris_legalizer.cpp", "      if (b1 <= e2 && b2 <= e1) {\n        ret.emplace_back(std::max(b1, b2), std::min(e1, e2));\n      }", "      if (b1 > e2 && b2 > e1) {\n        continue;\n      }\n      ret.emplace_back(std::max(b1, b2), std::min(e1, e2));", V, ["IE"]),
+  ("benign-interval-intersection-skip-form", PD + "tetris_legalizer.cpp", "      if (b1 <= e2 && b2 <= e1) {\n        ret.emplace_back(std::max(b1, b2), std::min(e1, e2));\n      }", "      if (b1 > e2 || b2 > e1) {\n        continue;\n      }\n      ret.emplace_back(std::max(b1, b2), std::min(e1, e2));", H, []),
   ("drop-checkAllPlaced", PD + "legalizer.cpp", "  // Check that everything is legalized\n  checkAllPlaced();\n", "", V, ["P1"]),
   ("legalizer-on-raw-rows", PD + "legalizer.cpp", "return Legalizer(circuit.computeRows(), widths", "return Legalizer(circuit.rows(), widths", V, ["PV"]),
   ("remainingRows-subtracts-unplaced", PD + "legalizer.cpp", "    if (!isPlaced(i)) {\n      continue;\n    }\n    obstacles.emplace_back", "    obstacles.emplace_back", V, ["PV"]),
@@ -49,6 +53,8 @@ M = {
   ("benign-mirrored-comparison", PD + "place_detailed.cpp", "    auto [feasible, val] = valueOnInsert(c, row, candidate);\n    if (feasible && val < bestValue) {", "    auto [feasible, val] = valueOnInsert(c, row, candidate);\n    if (feasible && bestValue > val) {", H, []),
  ],
  "C06": [
+  ("single-target-returned-unspread", PG + "density_grid.cpp", "  assert(targets.size() == demands.size());\n  std::vector<std::pair<float, int> > order;", "  assert(targets.size() == demands.size());\n  if (targets.size() <= 1) {\n    return targets;\n  }\n  std::vector<std::pair<float, int> > order;", V, ["SB"]),
+  ("benign-empty-targets-returned", PG + "density_grid.cpp", "  assert(targets.size() == demands.size());\n  std::vector<std::pair<float, int> > order;", "  assert(targets.size() == demands.size());\n  if (targets.empty()) {\n    return targets;\n  }\n  std::vector<std::pair<float, int> > order;", H, []),
   ("blend-mixes-axes", PG + "place_global.cpp", "  std::vector<float> yplace = blendPlacement(yPlacementLB_, yPlacementUB_, w);", "  std::vector<float> yplace = blendPlacement(yPlacementLB_, xPlacementUB_, w);", V, ["QB"]),
   ("export-uses-height-for-x", PG + "place_global.cpp", "    circuit.cellX_[i] = std::round(xplace[i] - 0.5 * circuit.placedWidth(i));", "    circuit.cellX_[i] = std::round(xplace[i] - 0.5 * circuit.placedHeight(i));", V, ["XP"]),
   ("fixed-pins-not-clamped", PG + "net_model.cpp", "    minPos = std::max(minPos, areaMin);\n    maxPos = std::min(maxPos, areaMax);\n    ret.addNet(cells, offsets, minPos, maxPos, circuit.netWeight(i));\n  }\n  ret.check();\n  return ret;\n}\n\nNetModel NetModel::yTopology", "    maxPos = std::min(maxPos, areaMax);\n    ret.addNet(cells, offsets, minPos, maxPos, circuit.netWeight(i));\n  }\n  ret.check();\n  return ret;\n}\n\nNetModel NetModel::yTopology", V, ["G9"]),
@@ -67,6 +73,9 @@ M = {
   ("benign-assert-guarded-form", PD + "place_detailed.cpp", "  assert(cellPred != cellNext || cellPred == -1);", "  if (cellPred != -1) {\n    assert(cellPred != cellNext);\n  }", H, []),
   ("capacity-share-in-int", PG + "transportation.cpp", "  DemandType added = missing / nbSinks();", "  int added = missing / nbSinks();", V, ["M2"]),
   ("benign-remainder-in-int", PG + "transportation.cpp", "  assert(missing >= 0LL && missing < nbSinks());", "  int rem = missing % nbSinks();\n  (void)rem;\n  assert(missing >= 0LL && missing < nbSinks());", H, []),
+  ("min-height-includes-zero", PG + "density_grid.cpp", "    if (height > 0) {\n      minCellHeight = std::min(height, minCellHeight);\n    }", "    if (height >= 0) {\n      minCellHeight = std::min(height, minCellHeight);\n    }", V, ["DZ"]),
+  ("benign-min-height-skip-form", PG + "density_grid.cpp", "    if (height > 0) {\n      minCellHeight = std::min(height, minCellHeight);\n    }", "    if (height <= 0) {\n      continue;\n    }\n    minCellHeight = std::min(height, minCellHeight);", H, []),
+  ("benign-bin-size-clamped", PG + "density_grid.cpp", "    if (height > 0) {\n      minCellHeight = std::min(height, minCellHeight);\n    }", "    minCellHeight = std::min(std::max(height, 1), minCellHeight);", H, []),
   ("benign-cast-style", PD + "row_legalizer.cpp", "    cur_cost += static_cast<long long>(old_pos - cur_pos) * (slope + width);", "    cur_cost += (long long)(old_pos - cur_pos) * (slope + width);", H, []),
  ],
  "C08": [
@@ -78,6 +87,8 @@ M = {
   ("future-not-joined", PG + "place_global.cpp", "  xPlacementLB_ = x.get();\n  yPlacementLB_ = y.get();", "  xPlacementLB_ = x.get();\n  if (step_ > 1) yPlacementLB_ = y.get();", V, ["A1"]),
  ],
  "C09": [
+  ("fixed-extent-strict-emptiness-test", PD + "incr_net_model.cpp", "    if (hasFixed) {\n      cells.push_back(fixedCell);\n      offsets.push_back(minFixed);", "    if (minFixed < maxFixed) {\n      cells.push_back(fixedCell);\n      offsets.push_back(minFixed);", V, ["SN"]),
+  ("benign-fixed-extent-nonstrict-test", PD + "incr_net_model.cpp", "    if (hasFixed) {\n      cells.push_back(fixedCell);\n      offsets.push_back(minFixed);", "    if (minFixed <= maxFixed) {\n      cells.push_back(fixedCell);\n      offsets.push_back(minFixed);", H, []),
   ("pinX-flip-set-incomplete", "src/coloquinte.cpp", "                 orient == CellOrientation::FN || orient == CellOrientation::FE;\n  return flipped ? placedWidth(cell) - offs : offs;", "                 orient == CellOrientation::FN;\n  return flipped ? placedWidth(cell) - offs : offs;", V, ["T3"]),
   ("hpwl-stops-early", "src/coloquinte.cpp", "      int cell = pinCell(net, pin);\n      int px = x(cell) + pinXOffset(net, pin);", "      if (pin > 3) break;\n      int cell = pinCell(net, pin);\n      int px = x(cell) + pinXOffset(net, pin);", V, ["H1"]),
   ("hpwl-mixes-axes", "src/coloquinte.cpp", "      int py = y(cell) + pinYOffset(net, pin);", "      int py = y(cell) + pinXOffset(net, pin);", V, ["H1"]),
@@ -85,12 +96,17 @@ M = {
   ("benign-isTurn-reorder", "src/parameters.cpp", "  return orient == CellOrientation::E || orient == CellOrientation::W ||", "  return orient == CellOrientation::W || orient == CellOrientation::E ||", H, []),
  ],
  "C10": [
+  ("empty-net-accepted-while-busy", "src/coloquinte.cpp", "  checkNotInUse();\n  if (cells.empty()) {\n    return;\n  }", "  if (cells.empty()) {\n    return;\n  }\n  checkNotInUse();", V, ["G10"]),
   ("setRows-without-busy-check", "src/coloquinte.cpp", "void Circuit::setRows(const std::vector<Row> &r) {\n  checkNotInUse();\n", "void Circuit::setRows(const std::vector<Row> &r) {\n", V, ["G10"]),
   ("guard-after-the-placer", "src/coloquinte.cpp", "  InUseGuard guard(isInUse_);\n  GlobalPlacer::place(*this, params, callback);", "  GlobalPlacer::place(*this, params, callback);\n  InUseGuard guard(isInUse_);", V, ["X1"]),
   ("check-after-construction", PG + "place_global.cpp", "  params.check();\n  std::cout << \"Global placement starting\" << std::endl;\n  auto startTime = std::chrono::steady_clock::now();\n  GlobalPlacer pl(circuit, params);", "  std::cout << \"Global placement starting\" << std::endl;\n  auto startTime = std::chrono::steady_clock::now();\n  GlobalPlacer pl(circuit, params);\n  params.check();", V, ["P2"]),
   ("benign-try-catch-idiom", "src/coloquinte.cpp", "  InUseGuard guard(isInUse_);\n  GlobalPlacer::place(*this, params, callback);", "  isInUse_ = true;\n  try {\n    GlobalPlacer::place(*this, params, callback);\n  } catch (...) {\n    isInUse_ = false;\n    throw;\n  }\n  isInUse_ = false;", H, []),
  ],
  "C12": [
+  ("leftover-bound-at-uncommitted-position", PD + "row_legalizer.cpp", "      bounds.push(Bound(slope, finalAbsPos));", "      bounds.push(Bound(slope, cur_pos));", V, ["BQ"]),
+  ("benign-leftover-bound-at-min-of-both", PD + "row_legalizer.cpp", "      bounds.push(Bound(slope, finalAbsPos));", "      bounds.push(Bound(slope, std::min(cur_pos, finalAbsPos)));", H, []),
+  ("clear-half-empties-queue", PD + "row_legalizer.cpp", "  bounds = std::priority_queue<Bound>();", "  for (size_t i = 0; i < bounds.size(); ++i) {\n    bounds.pop();\n  }", V, ["QP"]),
+  ("benign-clear-by-popping-all", PD + "row_legalizer.cpp", "  bounds = std::priority_queue<Bound>();", "  while (!bounds.empty()) {\n    bounds.pop();\n  }", H, []),
   ("no-repush", PD + "row_legalizer.cpp", "    for (Bound b : passed_bounds) {\n      bounds.push(b);\n    }", "    (void)passed_bounds;", V, ["R6"]),
   ("state-written-on-query", PD + "row_legalizer.cpp", "  if (update) {\n    cumWidth_.push_back(width + usedSpace());", "  cumWidth_.push_back(width + usedSpace());\n  if (update) {", V, ["G11"]),
   ("getCost-commits", PD + "row_legalizer.cpp", "  return getDisplacement(width, targetPos, false);", "  return getDisplacement(width, targetPos, true);", V, ["QP"]),
@@ -107,6 +123,8 @@ M = {
   ("result-sized-by-sorted-count", PG + "transportation_1d.cpp", "  std::vector<int> ret(nbSources_, snkOrder.empty() ? 0 : snkOrder.front());", "  std::vector<int> ret(srcOrder.size(), snkOrder.empty() ? 0 : snkOrder.front());", V, ["QI"]),
  ],
  "C15": [
+  ("obstacles-inflated-after-weak-overlap-test", "src/coloquinte.cpp", "    row_set.insert(bpl::rectangle_data<int>(r.minX, r.minY, r.maxX, r.maxY),\n                   true);", "    if (r.maxY <= minY || r.minY >= maxY) {\n      continue;\n    }\n    row_set.insert(bpl::rectangle_data<int>(r.minX, minY, r.maxX, maxY), true);", V, ["G13"]),
+  ("benign-solid-obstacles-inflated", "src/coloquinte.cpp", "    row_set.insert(bpl::rectangle_data<int>(r.minX, r.minY, r.maxX, r.maxY),\n                   true);", "    if (r.maxY <= minY || r.minY >= maxY || r.minY >= r.maxY) {\n      continue;\n    }\n    row_set.insert(bpl::rectangle_data<int>(r.minX, minY, r.maxX, maxY), true);", H, []),
   ("non-obstructions-removed", "src/coloquinte.cpp", "    if (!isObstruction(i)) {\n      continue;\n    }\n    obstacles.emplace_back(placement(i));", "    obstacles.emplace_back(placement(i));", V, ["G12"]),
   ("segment-loses-orientation", "src/coloquinte.cpp", "      ret.emplace_back(newRow, orientation);", "      ret.emplace_back(newRow, CellOrientation::N);", V, ["G13"]),
   ("partial-slabs-kept", "src/coloquinte.cpp", "    if (newRow.height() == height()) {\n      ret.emplace_back(newRow, orientation);\n    }", "    ret.emplace_back(newRow, orientation);", V, ["G13"]),
@@ -132,6 +150,8 @@ M = {
   ("benign-commuted-product", PG + "net_model.cpp", "  rhs_[c1] += weight * (pos - offs1);", "  rhs_[c1] += (pos - offs1) * weight;", H, []),
  ],
  "C18": [
+  ("region-scan-bounded-by-cell-minx", "src/coloquinte.cpp", "      for (auto [r, e] : expansionMap) {\n        if (r.intersects(place)) {\n          expansion = std::max(expansion, e);\n        }\n      }", "      auto last = std::upper_bound(expansionMap.begin(), expansionMap.end(), place.minX,\n                                   [](int x, const std::pair<Rectangle, float> &a) { return x < a.first.minX; });\n      for (auto it = expansionMap.begin(); it != last; ++it) {\n        if (it->first.intersects(place)) {\n          expansion = std::max(expansion, it->second);\n        }\n      }", V, ["RM"]),
+  ("benign-region-scan-bounded-by-cell-maxx", "src/coloquinte.cpp", "      for (auto [r, e] : expansionMap) {\n        if (r.intersects(place)) {\n          expansion = std::max(expansion, e);\n        }\n      }", "      auto last = std::upper_bound(expansionMap.begin(), expansionMap.end(), place.maxX,\n                                   [](int x, const std::pair<Rectangle, float> &a) { return x < a.first.minX; });\n      for (auto it = expansionMap.begin(); it != last; ++it) {\n        if (it->first.intersects(place)) {\n          expansion = std::max(expansion, it->second);\n        }\n      }", H, []),
   ("fixed-cells-expanded", "src/coloquinte.cpp", "    if (!cellIsFixed_[i]) {\n      // Just round down here", "    if (true) {\n      // Just round down here", V, ["G15"]),
   ("fixed-cells-get-penalty", "src/coloquinte.cpp", "      expansions.push_back(1.0f);", "      expansions.push_back(1.0f + fixedPenalty);", V, ["G16"]),
   ("density-guard-dropped", "src/coloquinte.cpp", "  double density = (double)cellArea / (double)rowArea;\n  if (density >= targetDensity) {\n    return;\n  }\n", "  double density = (double)cellArea / (double)rowArea;\n", V, ["NN"]),
